@@ -164,6 +164,10 @@ def main(tier="quick"):
     t6 = not bad
     print("%-34s %s   (%d evidence files validated%s)" % ("evidence schema", "ok" if t6 else "FAILED", len(files), "" if t6 else ": " + "; ".join(bad[:3])))
     ok &= t6
+    # ---- (f0) every module of the specification parses with SANY (tlapm's own parser is more permissive: precedence conflicts)
+    badp = tlc.sany_all()
+    print("%-34s %s   (%s)" % ("SANY all modules", "ok" if not badp else "FAILED", "all parse" if not badp else "; ".join(b[0] for b in badp)))
+    ok &= not badp
     # ---- (f) the TLAPS proofs of the index facts (all sizes) go through
     from . import proofs
     for mod in proofs.MODULES:
